@@ -28,9 +28,11 @@ EXPLANATION = (
     "commit()), every sink (fire of the start Deferred, self.stop(), callLater, client send) must be dominated by "
     "the complement of `_stopping and failure.check(CancelledError)`. Scheduling sites are classified by the entry "
     "points that can reach them in the class call/registration graph."
+    ' Also: start() returns the Deferred it created, and the function that fails the start Deferred does nothing afterwards (R4, finding F39).'
 )
 SHARED = [('C03', ['R2'], 'the processor is not invoked again once stop() has begun'),
-          ('C14', ['R6'], 'a consumer started again after stop/shutdown runs with the configuration it was given')]
+          ('C14', ['R6'], 'a consumer started again after stop/shutdown runs with the configuration it was given'),
+          ('C14', ['R7'], 'an exception in a reply handler reaches the error handler, which retries or fails the start Deferred (the consumer never sits idle with that Deferred unfired)')]
 ASSUMPTIONS = [
     "Twisted: cancel() of an unfired Deferred errbacks CancelledError through its chain synchronously",
     "IDelayedCall.cancel()/LoopingCall.stop() prevent further calls",
@@ -204,6 +206,27 @@ def run(ctx):
         r.check(ok, "%s#cancels(%s:%s)" % (stop.qname, a, k), why, where(stop, hits[0][1] if hits else stop.node),
                 "stop() with that activity live: it keeps fetching / committing / ticking after stop returned",
                 facts=["sites=%d" % len(hits)])
+    # a request or processor handle is cancelled by nobody but stop() (which raises `_stopping` first): the failure
+    # handlers tell "cancelled by stop()" from a failed attempt by that flag alone
+    stray_c = []
+    for f_ in sorted([x for x in prog.funcs.values() if x.module.name == "consumer"], key=lambda x: x.qname):
+        top_ = f_
+        while top_.parent is not None:
+            top_ = top_.parent
+        if top_.cls is not ci or top_ is stop:
+            continue
+        cfx, ffx = ctx.cfg(f_), ctx.facts(f_)
+        for n_ in cfx.nodes:
+            for c_ in n_.calls():
+                if call_name(c_) != "cancel" or not isinstance(c_.func, ast.Attribute):
+                    continue
+                og_ = value_origins(cfx, n_.id, c_.func.value, params=f_.params) if isinstance(c_.func.value, ast.Name) else [(n_.id, c_.func.value)]
+                hit_ = sorted({self_attr(e_) for _d, e_ in (og_ or []) if self_attr(e_) in active and active[self_attr(e_)] == "deferred"})
+                if hit_ and ("self._stopping", True) not in ffx[n_.id]:
+                    stray_c.append("%s line %d (%s)" % (f_.qname, n_.lineno, hit_[0]))
+    r.check(not stray_c, "%s#requests-cancelled-only-by-stop" % CONS, "a request / processor Deferred is cancelled outside stop(): %s" % stray_c,
+            where(stop, stop.node), "a graceful shutdown that cancels the long-poll fetch: the cancellation counts as a failed attempt and, at the "
+            "attempt limit, fails the start Deferred of a cleanly shut down consumer")
     r.info("handles discovered: %s; excluded: %s" % (sorted(active), {k: v for k, v in EXCLUDED.items() if k in handles}))
 
     # ---- R2 stop-induced cancellations are ignored by failure handlers
@@ -513,6 +536,15 @@ def run(ctx):
         if ((rc + ".called", False) in fst[n.id] or (unparse(c.func.value) + ".called", False) in fst[n.id]) and c.args and norm(
                 c.args[0]) == "self._last_processed_offset":
             okf = True
+    # ... after the attribute was cleared: a callback on the start Deferred that starts the consumer again must find it stopped
+    clears_ = [n.id for n in cs.nodes if isinstance(node_assign_value(n, "_start_d"), ast.Constant) and node_assign_value(n, "_start_d").value is None]
+    clears_ += [n.id for n in cs.nodes if n.kind == "stmt" and isinstance(n.stmt, ast.Assign) and isinstance(n.stmt.targets[0], ast.Tuple) and isinstance(
+        n.stmt.value, ast.Tuple) and any(self_attr(t_) == "_start_d" and isinstance(v_, ast.Constant) and v_.value is None
+                                          for t_, v_ in zip(n.stmt.targets[0].elts, n.stmt.value.elts))]
+    r.check(bool(fires) and bool(clears_) and all(cs.dominates(clears_, n.id) for n, c in fires), "%s#cleared-before-fired" % stop.qname,
+            "stop() fires the start Deferred while `_start_d` still holds it", where(stop, fires[0][1] if fires else stop.node),
+            "an application that restarts the consumer from the start Deferred's callback gets RestartError: the stopped consumer cannot be "
+            "started again at the moment it reports being stopped")
     r.check(okf, "%s#fires-start-d" % stop.qname,
             "stop() does not fire the start Deferred under `not called` with the last processed offset", where(stop, stop.node),
             "start()'s Deferred fires twice (AlreadyCalledError) or never")
@@ -703,6 +735,29 @@ def run(ctx):
                         cbs.add(g)
         clears = [g for g in cbs if any(isinstance(x, ast.Assign) and any(self_attr(t) == a for t in x.targets) and isinstance(
             x.value, ast.Constant) and x.value.value is None for x in walk_body_shallow(g.body))]
+        # a handle that gates re-arming (`if self.<handle> is None: <arm>`) must be cleared by its callback on EVERY path: an
+        # early return that leaves the fired call in place blocks every later arming for good
+        gated = any(("self.%s is None" % a, True) in ctx.facts(f_)[n_.id] or ("self.%s" % a, False) in ctx.facts(f_)[n_.id]
+                    for f_ in [x for x in prog.funcs.values() if x.cls is ci] for n_ in ctx.cfg(f_).nodes
+                    if n_.kind == "stmt" and isinstance(n_.stmt, ast.Assign) and any(self_attr(t) == a for t in n_.stmt.targets) and isinstance(
+                        n_.stmt.value, ast.Call) and call_name(n_.stmt.value) == "callLater")
+        if gated:
+            for g in sorted(cbs, key=lambda g: g.qname):
+                cg_ = ctx.cfg(g)
+                clr_ = [n_.id for n_ in cg_.nodes if isinstance(node_assign_value(n_, a), ast.Constant) and node_assign_value(n_, a).value is None]
+                # ... or finds it clear already (the branch of a test on the handle that means "is None")
+                from ..cfg import cond_facts as _cf7
+                fg_ = ctx.facts(g)
+                for n_ in cg_.nodes:
+                    for t_, lab_ in cg_.succ[n_.id]:
+                        if lab_ and lab_[0] == "cond":
+                            at_ = _cf7(frozenset(fg_[n_.id]), lab_[1], lab_[2])  # through local copies of the handle
+                            if ("self.%s is None" % a, True) in at_ or ("self.%s" % a, False) in at_:
+                                clr_.append(t_)
+                r.check(bool(clr_) and not cg_.normal_exits_from(cg_.entry.id, avoid=clr_), "%s#gate-handle-cleared-on-every-path(%s)" % (g.qname, a),
+                        "%s, which the `%s` timer calls, can return without clearing the handle; `%s` is armed only when the handle is None" % (g.name, a, a),
+                        where(g, g.node), "the timer fires while a request is outstanding (the consumer was restarted from inside its processor): "
+                        "the early return leaves the fired call in place and the consumer never fetches again")
         r.check(guarded or (bool(cbs) and len(clears) == len(cbs)), "%s#fired-handle-cleared(%s)" % (CONS, a),
                 "self.%s keeps pointing at a delayed call that has already fired (its callback %s never clears it) and stop() cancels it "
                 "without checking .active()" % (a, sorted(g.name for g in cbs)), where(stop, stop.node),
@@ -895,6 +950,11 @@ def run(ctx):
 
 
 MUTANTS = [
+    {"id": "retry-handle-kept-on-outstanding-request", "file": "consumer.py",
+     "edits": [("consumer.py", "        if self._retry_call is not None:\n            if self._retry_call.active():\n                self._retry_call.cancel()\n            self._retry_call = None\n\n        # Check for outstanding request.\n        if self._request_d:\n            log.debug(\"_do_fetch: Outstanding request: %r\", self._request_d)\n            return\n",
+                "        # Check for outstanding request.\n        if self._request_d:\n            log.debug(\"_do_fetch: Outstanding request: %r\", self._request_d)\n            return\n\n        if self._retry_call is not None:\n            if self._retry_call.active():\n                self._retry_call.cancel()\n            self._retry_call = None\n")],
+     "expect": "C13.R7", "note": "finding F44"},
+
     {"id": "looper-armed-after-first-fetch", "file": "consumer.py",
      "edits": [("consumer.py", "        # Start a new fetch request, possibly just for the starting offset\n        self._fetch_offset = start_offset\n        self._do_fetch()\n        return start_d\n", "        return start_d\n"),
                ("consumer.py", "        # Set up the auto-commit timer, if needed (before the first fetch: its\n", "        self._fetch_offset = start_offset\n        self._do_fetch()\n        # Set up the auto-commit timer, if needed (before the first fetch: its\n")],
@@ -978,6 +1038,10 @@ MUTANTS = [
      "expect": "C13.R6"},
 ]
 TWINS = [
+    {"id": "retry-handle-cleared-through-a-local", "file": "consumer.py",
+     "old": "        if self._retry_call is not None:\n            if self._retry_call.active():\n                self._retry_call.cancel()\n            self._retry_call = None\n\n        # Check for outstanding request.\n",
+     "new": "        pending = self._retry_call\n        if pending is not None:\n            self._retry_call = None\n            if pending.active():\n                pending.cancel()\n\n        # Check for outstanding request.\n",
+     "note": "the handle tested and cancelled through a local copy"},
     {"id": "fired-commit-timer-not-cleared", "file": "consumer.py",
      "old": "        if self._commit_call and not self._commit_call.active():\n            self._commit_call = None\n", "new": "",
      "note": "seeded C13-2: harmless since F32 (stop() cancels a timer only while active and clears the handle)"},
